@@ -17,6 +17,7 @@ from __future__ import annotations
 
 import itertools
 import json
+import math
 import os
 import random
 import tempfile
@@ -494,6 +495,8 @@ def length_pattern(p, rnd):
         return itertools.cycle(LENGTHS)
     if p == "ones":
         return itertools.repeat(1.0)
+    if p == "decimal":
+        return itertools.cycle([0.1, 0.2, 0.3, 0.7, 1.1, 2.3])
     if p == "set":
         return iter(lambda: rnd.choice(LENGTHS), None)
     if p == "float":
@@ -544,6 +547,16 @@ def random_model(rnd, n, p="float", multifurc=0.3):
     return m
 
 
+def balanced(m, w, ulps=0, zlast=False, name="z"):
+    """(z:H+w, m:w) -- the midpoint of the longest path is the root itself, give or take the rounding of the sums
+    (ulps moves z's length to the next float up/down): what any midpoint rooting followed by a newick write/read yields"""
+    x = max(root_tip_dists(m).values()) + w
+    if ulps:
+        x = math.nextafter(x, math.inf if ulps > 0 else 0.0)
+    kids = [[name, x], [m[0], m[1], w]]
+    return [kids[::-1] if zlast else kids, None, None]
+
+
 def unary_ops():
     return [["unrooted"], ["midpoint"], ["sorted", 0], ["sorted", 2], ["copy"]]
 
@@ -561,11 +574,19 @@ def gen_transform(tier, seed):
     rnd = random.Random(seed)
     thorough = tier == "thorough"
     ns = range(2, 8) if thorough else range(2, 7)
-    pats = ("cycle", "ones", "set") if thorough else ("cycle", "ones")
+    pats = ("cycle", "ones", "set", "decimal") if thorough else ("cycle", "ones")
     for n, m in models(ns, pats, rnd, named=(False, True) if thorough else (False,), mirrors=(False, True)):
         ops = unary_ops() + [["deepcopy"], ["sorted", n]] + arg_ops(n, (0, 1, 2, 3), thin=1 if n <= 5 else 3)
         for op in ops:
             yield [m, [op]]
+    # trees whose root already sits on the midpoint of the longest path, with lengths that are not exact in binary
+    for n, m in models(range(2, 6) if thorough else range(2, 5), ("decimal", "cycle"), rnd, mirrors=(False, True)):
+        for w in (0.1, 0.3, 1.1):
+            for ulps in (0, 1, -1):
+                for zlast in (False, True):
+                    mb = balanced(m, w, ulps, zlast)
+                    for op in unary_ops()[:2] + [["with_tip", 0], ["sub", (1 << (n + 1)) - 1, 0]]:
+                        yield [mb, [op]]
     if thorough:  # beyond the frontier: random shapes on 8..10 tips, random real lengths
         for _ in range(2500):
             n = rnd.choice((8, 9, 10))
@@ -617,7 +638,7 @@ def contract_compose(case):
 
 
 # ------------------------------------------------------------------------------------------------ round trips
-EXOTIC = (["x y", "x_y", "x  y", " x", "x ", "x y_z", "'x'", "'", '"', "_", "1", "1e3", "-1.5", "edge.0", "root", "x.1", "X*"]
+EXOTIC = (["x y", "x_y", "x  y", " x", "x ", "x y_z", "'x'", "'", "'x", "x'", '"', "_", "1", "1e3", "-1.5", "edge.0", "root", "x.1", "X*"]
           + [f"x{c}y" for c in "!\"#$%&'()*+,-./:;<=>?@[\\]^`{|}~"])
 
 
@@ -791,7 +812,6 @@ def contract_distance(case):
             return ("fail", f"tree_distance/{kind}/{fam}/raises-ValueError", f"{ctx} method={meth}: {res[0][1]}; expected {want}")
         d = res[0][1]
         if want == "undefined":
-            want_zero = False
             if d == 0:
                 return ("fail", f"tree_distance/{kind}/{fam}/zero-for-different-topologies", f"{ctx} method={meth}: 0")
             continue
@@ -818,8 +838,10 @@ BOUNDED = {
                       "cogent3.parse.newick.parse_string"],
         "bound": "every rooted (root degree 2) and unrooted (root degree >=3) shape without unary nodes on 2..6 tips (thorough 2..7), "
                  "incl. multifurcations, two child orders/labellings, lengths cycling through {0.5,1,2,3.25} / all 1 (thorough also "
-                 "seeded draws and named internal nodes) x " + _OPS_DOC + "; thorough adds 15000 seeded (tree, op) cases on 8..10 tips "
-                 "with real-valued lengths",
+                 "seeded draws, decimal lengths {0.1,0.2,0.3,0.7,1.1,2.3} and named internal nodes) x " + _OPS_DOC + "; plus every shape on "
+                 "2..4 (thorough 2..5) tips wrapped as (z:H+w, shape:w) so that the root lies on the midpoint of the longest path, "
+                 "z's length also moved one float up/down, z first/last x {unrooted, midpoint, rooted_with_tip, get_sub_tree(all)}; "
+                 "thorough adds 15000 seeded (tree, op) cases on 8..10 tips with real-valued lengths",
         "rule": "a case = (model tree, [op]); result view (tips, all pairwise path lengths to 1e-12, split set) == receiver view "
                 "restricted to the retained tips, receiver snapshot unchanged, library observers agree with the walked structure, "
                 "op-specific intent (root position / order); non-trivial when the tree has >=3 tips; distinct by hash of the case",
@@ -832,7 +854,8 @@ BOUNDED = {
                  "round trip, json round trip, rooted_with_tip(every tip), rooted_at(every internal node), get_sub_tree(every subset) "
                  "(op2 enumerated over the tips/nodes of op1's result); plus 600 (thorough 6000) seeded chains of depth 3-4 on 4..7 tips",
         "rule": "a case = (model tree, [op1, op2, ...]); every step is checked against its own receiver as in 'transform', and the "
-                "original tree must be unchanged at the end; skipped when an index does not exist in the intermediate tree",
+                "original tree must be unchanged at the end; skipped when an index does not exist in the intermediate tree or when the "
+                "intermediate tree's root has a single child (get_sub_tree(keep_root=True) output: neither rooted nor unrooted)",
     },
     "roundtrip": {
         "gen": gen_roundtrip, "contract": contract_roundtrip,
